@@ -102,7 +102,7 @@ pub fn step_strategy(max_depth: u8) -> impl Strategy<Value = Step> {
     )
         .prop_map(|(depth, seed, w, sched, cancel, variant, own)| {
             let workers = WORKERS[w as usize];
-            Step { depth, seed, workers, sched: if workers > 1 { Some(sched) } else { None }, cancel, variant, own }
+            Step { depth, seed, workers, sched: if workers > 1 && sched % 8 != 0 { Some(sched) } else { None }, cancel, variant, own }
         })
 }
 
@@ -290,8 +290,9 @@ pub fn plan(ctx: &Ctx) -> Plan {
         rule: "a case is a history of 1-6 searches sharing one search memory of generated geometry (8x1024 down to 1x1 \
                buckets): (i) the same placement under different castling-right subsets / with and without its \
                en-passant target, (ii) a game (search, play the reported move, oracle-random reply, search again), (iii) \
-               unrelated sparse positions; each search has a depth limit 1-5, a seed, 1/2/3/4/8/32 workers (>1 always \
-               under the seeded baton scheduler at the shared-table accesses) and optionally a node-clock Stop at N in \
+               unrelated sparse positions; each search has a depth limit 1-5, a seed, 1/2/3/4/8/32 workers (>1: seven in eight \
+               under the seeded baton scheduler at the shared-table accesses, one in eight really parallel and \
+               therefore not replayable) and optionally a node-clock Stop at N in \
                {0,1,small,9999,10000,10001,20000,large}. Oracle: no panic (the repository's own debug assertions are \
                live), every move of every reported line legal in the position reached so far (attribute-tuple equality \
                with the rules oracle), and at least one report unless the table is more than 25% full or the Stop came \
